@@ -21,7 +21,7 @@ ASSUMPTIONS = ['which options are offered at an intermediate state is an oracle 
                'viable <= offered <= declared (checked under C06); the walk is truncated at a state budget per graph, '
                'in which case the reachable-set comparison is skipped for that graph']
 LEANCHECK_MODULES = ['Adsg.Model.Graph', 'Adsg.Model.Steps', 'Adsg.Props.C02']
-STREAMS = [('tame', 3), ('tree', 4), ('shared', 3)]
+STREAMS = [('tame', 3), ('tree', 4), ('shared', 3), ('overlap', 3)]
 
 
 def gen_spec(rng, stream):
@@ -30,6 +30,30 @@ def gen_spec(rng, stream):
     if stream == 'tree':
         return gen.gen_tree(rng, depth=3)
     return gen.gen_shared(rng)
+
+
+def add_orphans(rng, spec):
+    """Nodes that no start node derives: two or three extra root nodes jointly deriving a node X, which derives an
+    existing option node and carries a choice of its own. None of them belongs to any architecture; set_start_nodes has
+    to remove the whole component (X has several parents, so it only goes once all of them are gone)."""
+    spec = dict(spec)
+    n = spec['n']
+    derives = [list(e) for e in spec['derives']]
+    sel = [dict(c) for c in spec['sel']]
+    roots = list(range(n, n + rng.randint(2, 3)))
+    n += len(roots)
+    x = n
+    n += 1
+    for r in roots:
+        derives.append([r, x])
+    opts = [o for c in sel for o in c['opts']]
+    if opts and rng.random() < .7:
+        derives.append([x, rng.choice(opts)])
+    k = rng.randint(2, 3)
+    sel.append({'o': x, 'opts': list(range(n, n + k))})
+    n += k
+    spec.update(n=n, derives=derives, sel=sel)
+    return spec
 
 
 def stream_cls(spec, stream):
@@ -53,13 +77,60 @@ def check_graph(ctx, rep, spec, stream, kinds=KINDS):
              sample={'spec': spec, 'states': w.n_states, 'archs': len(w.model_rows)} if nontrivial else None)
 
 
+# Minimised past failures (run first on every run). 1: two options reach a node via overlapping derivation paths
+# (O1 -> B; O2 -> B, Y; Y -> B; P -> Y) - the confirmed-edge cache used to hold an incomplete edge set for Y, so the choice
+# on B never became active after O3, P (fixed in 00072a1).
+CORPUS = [
+    {'n': 10, 'derives': [[1, 6], [2, 6], [2, 7], [7, 6], [4, 7]],
+     'sel': [{'o': 0, 'opts': [1, 2, 3]}, {'o': 0, 'opts': [4, 5]}, {'o': 6, 'opts': [8, 9]}],
+     'start': [0], 'incompat': [], 'cons': []},
+    {'n': 8, 'derives': [[1, 4], [1, 5], [1, 6], [6, 4], [6, 5], [2, 6]],
+     'sel': [{'o': 0, 'opts': [1, 2]}, {'o': 5, 'opts': [3, 7]}],
+     'start': [0], 'incompat': [], 'cons': []},
+]
+
+
+def gen_overlap(rng):
+    """Overlapping derivation paths: options derive shared intermediate nodes both directly and through each other
+    (cross edges of the derivation DAG), and choices originate at such shared nodes."""
+    nopt = rng.randint(2, 3)
+    n = 1 + nopt
+    sel = [{'o': 0, 'opts': list(range(1, 1 + nopt))}]
+    if rng.random() < .6:
+        k = rng.randint(2, 3)
+        sel.append({'o': 0, 'opts': list(range(n, n + k))})
+        n += k
+    opts = [o for c in sel for o in c['opts']]
+    mids = list(range(n, n + rng.randint(2, 4)))
+    n += len(mids)
+    derives = []
+    for o in opts:
+        for m in rng.sample(mids, rng.randint(0, min(3, len(mids)))):
+            derives.append([o, m])
+    for a in mids:
+        for b_ in mids:
+            if a != b_ and rng.random() < .3 and [b_, a] not in derives:
+                derives.append([a, b_])
+    rng.shuffle(derives)
+    for _ in range(rng.randint(1, 2)):
+        k = rng.randint(2, 3)
+        sel.append({'o': rng.choice(mids), 'opts': list(range(n, n + k))})
+        n += k
+    return {'n': n, 'derives': derives, 'sel': sel, 'start': [0], 'incompat': [], 'cons': []}
+
+
 def run(ctx, rep, kinds=KINDS):
+    for ci, spec in enumerate(CORPUS):
+        if ctx.mine(ci):
+            check_graph(ctx, rep, dict(spec), 'corpus', kinds)
     n = ctx.pick(1500, 30000)
     weights = [s for s, k in STREAMS for _ in range(k)]
     i = 0
     for i in range(n):
         stream = ctx.rng.choice(weights)
-        spec = gen_spec(ctx.rng, stream)
+        spec = gen_overlap(ctx.rng) if stream == 'overlap' else gen_spec(ctx.rng, stream)
+        if stream in ('tree', 'overlap') and ctx.rng.random() < .2:
+            spec = add_orphans(ctx.rng, spec)
         if not ctx.mine(i):
             continue
         check_graph(ctx, rep, spec, stream, kinds)
